@@ -170,6 +170,16 @@ Theorem C13_save_recomputes : forall R (O : ops R), is_ring O -> forall ts es,
 Proof. exact save_recomputes. Qed.
 Print Assumptions C13_save_recomputes.
 
+(* ... also when saves FAIL in between (Node.save recomputes, then saves its children, one of which may
+   raise): for ANY history of edits, successful saves and failed saves - a failed save may leave any
+   matrix whatever in the cache - the next successful save stores the product of the current list *)
+Theorem C13_save_recomputes_after_failed_saves : forall R (O : ops R), is_ring O -> forall ts h,
+  let n := run_history O (construct O ts) (h ++ [HSave]) in
+  transforms n = history_transforms ts h /\
+  matrix n = spec_matrix O (history_transforms ts h).
+Proof. exact save_recomputes_after_failures. Qed.
+Print Assumptions C13_save_recomputes_after_failed_saves.
+
 (* ---- over the reals: cos, sin, PI, sqrt of the standard library *)
 Theorem C13_degrees : 
   mapply Rplus Rmult (rotate_matrix Rops 0 0 1 90)%R (1, 0, 0, 0)%R = (0, 1, 0, 0)%R /\
@@ -226,3 +236,10 @@ Example C13_edit_history_instance :
   length (transforms n) = 3%nat /\
   mat_to_list (matrix n) = [0; -1; 0; -5;  1; 0; 0; 1;  0; 0; 1; 0;  0; 0; 0; 1]%Z.
 Proof. vm_compute. split; reflexivity. Qed.
+Example C13_failed_save_history_instance :
+  let garbage := mzero 0%Z in
+  let n := run_history zops (construct zops [TTranslate 1 0 0])
+             [HEdit (EAppend (TScale 2 2 2)); HSaveFailed garbage; HEdit (EInsert 0 (TRotate 0 0 1 90));
+              HSaveFailed garbage; HSave]%Z in
+  mat_to_list (matrix n) = [0; -2; 0; 0;  2; 0; 0; 1;  0; 0; 2; 0;  0; 0; 0; 1]%Z.
+Proof. vm_compute. reflexivity. Qed.
